@@ -1,0 +1,17 @@
+//go:build verif
+
+package housekeeping
+
+import (
+	"time"
+)
+
+// This file is add-only verification scaffolding (build tag "verif"). It only
+// exposes the values of unexported constants of this package and changes no
+// behaviour of the package.
+
+// VerifThresholds returns maximumAgentIdlePeriod, maximumCacheAge and
+// maximumStagingRootAge.
+func VerifThresholds() (time.Duration, time.Duration, time.Duration) {
+	return maximumAgentIdlePeriod, maximumCacheAge, maximumStagingRootAge
+}
